@@ -1,0 +1,33 @@
+//go:build verif
+
+package ssh
+
+import "errors"
+
+// Hook for the /verif harness (property C34): runs the real clientAuthenticate over a scripted
+// in-memory connTransport (verifTransport, see verif_c32.go). Compiled only with the "verif" tag.
+
+// ErrVerifDisconnect, returned by the harness read function, is delivered to the client code as the
+// *disconnectMsg error the real transport produces when the peer sends SSH_MSG_DISCONNECT.
+var ErrVerifDisconnect = errors.New("verif: scripted disconnect")
+
+// VerifClientAuthenticate applies ClientConfig.SetDefaults (as NewClientConn does) to a copy of
+// config and runs clientAuthenticate; packets the client reads come from read, packets it writes go
+// to write.
+func VerifClientAuthenticate(config *ClientConfig, sessionID []byte,
+	read func() ([]byte, error), write func([]byte) error) error {
+	fullConf := *config
+	fullConf.SetDefaults()
+	rd := func() ([]byte, error) {
+		p, err := read()
+		if err == ErrVerifDisconnect {
+			return nil, &disconnectMsg{Reason: 2, Message: "scripted disconnect"}
+		}
+		return p, err
+	}
+	c := &connection{
+		transport: &verifTransport{read: rd, write: write, sessionID: sessionID},
+		sshConn:   sshConn{conn: verifNetConn{}, user: fullConf.User, sessionID: sessionID},
+	}
+	return c.clientAuthenticate(&fullConf)
+}
